@@ -11,6 +11,7 @@ import glob
 import os
 
 from vlib.facts import kids, strip, walk, is_call, call_args, call_object, callee, render, literal, noid
+from vlib.cfg import write_target
 from vlib.flow import stream_chain
 from vlib.paren import operator_table
 from vlib.work import AnalysisBroken, REPO
@@ -52,6 +53,7 @@ def run(ctx):
     R.rule("C15-R2", "(shared with C12) literal escaping invertible and position independent", floor=2)
     R.rule("C15-R2b", "(shared with C12) delimiter agreement", floor=6)
     R.rule("C15-R3", "every expression node prints all stored children", floor=15)
+    R.rule("C15-R5", "a printer emits what the node stores: no print() edits a copy of one of the node's fields before streaming it", floor=25)
     R.rule("C15-R4", "parenthesesNode prints ( child ); no printer adds a second pair around it", floor=2)
 
     tab = operator_table(prog)
@@ -181,6 +183,46 @@ def run(ctx):
              "every stored child is streamed" if not missing else "child node(s) %s are part of the tree but never printed: the printed source loses a sub-expression" % missing)
     if n_cls < 12:
         raise AnalysisBroken("only %d expression node classes with children found" % n_cls)
+    # ---- R5: printing is read-only on the node AND on what is printed ----------------------------------------------------------------------
+    for f in sorted(prog.funcs.values(), key=lambda f: f.q):
+        if not f.q.endswith("Node::print") or not f.q.startswith(L) or f.d.get("tmpl") == "inst":
+            continue
+        cls = f.d.get("cls", "")
+        copies = {}
+        for v in f.walk():
+            if v["k"] != "VarDecl" or not kids(v):
+                continue
+            t = f.type(v).strip()
+            if t.startswith("const ") or t.endswith("&") or t.endswith("*"):
+                continue
+            src = [x for x in walk(kids(v)[0]) if x["k"] == "MemberExpr" and x.get("fcls") == cls]
+            if src and not any(is_call(x) and x["k"] != "CXXConstructExpr" for x in walk(kids(v)[0])):
+                copies[v["d"]] = (v, src[0])
+        edited = None
+        for x in f.walk():
+            if is_call(x) and x["k"] in ("CXXMemberCallExpr", "CXXOperatorCallExpr"):
+                obj = call_object(x) if x["k"] == "CXXMemberCallExpr" else (kids(x)[1] if len(kids(x)) > 1 else None)
+                root = obj
+                while root is not None and strip(root)["k"] == "MemberExpr" and kids(strip(root)):
+                    root = kids(strip(root))[0]
+                if root is not None and strip(root)["k"] == "DeclRefExpr" and strip(root).get("d") in copies:
+                    name = (callee(x) or "").split("::")[-1]
+                    if x["k"] == "CXXOperatorCallExpr" and x.get("op") == "<<":
+                        continue
+                    if name in ("clear", "erase", "remove", "pop_back", "resize", "add", "addFirst", "swap", "push_back", "insert") or (x["k"] == "CXXOperatorCallExpr" and x.get("op") in ("=", "+=", "-=")):
+                        edited = (x, copies[strip(root)["d"]])
+            tg = write_target(x)
+            if tg is not None:
+                root = strip(tg)
+                while root["k"] == "MemberExpr" and kids(root):
+                    root = strip(kids(root)[0])
+                if root["k"] == "DeclRefExpr" and root.get("d") in copies and x["k"] != "VarDecl":
+                    edited = (x, copies[root["d"]])
+        R.ob("C15-R5", edited is None, f.q, "print streams the stored fields", f.site(edited[0]) if edited else "%s:%d" % (f.relfile, f.d["line"]),
+             "no field is copied and edited before printing" if edited is None else
+             "print() edits a copy of `%s` (%s) and streams the copy: the printed text names something else than the node stores - for a cast type `unsigned` / `long` are qualifiers too, (unsigned char) x is printed (char) x" %
+             (edited[1][1].get("n", "?").split("::")[-1], noid(render(edited[0], False))[:60]), nontrivial=False)
+
     # order: binary prints left before right, ternary check ? true : false
     order = [noid(render(x, False)) for ch, n in chains for x in [None] if False]
     tp = prog.fn(L + "ternaryOpNode::print")
